@@ -16,7 +16,7 @@ VERIF = Path(__file__).resolve().parent.parent
 REPO = Path(os.environ.get("FROUROS_REPO", "/repo"))
 LEAN = VERIF / "lean"
 DRIVER = LEAN / ".lake" / "build" / "bin" / "driver"
-EVIDENCE = VERIF / "evidence"
+EVIDENCE = Path(os.environ.get("VERIF_EVIDENCE_DIR") or (VERIF / "evidence"))      # scratch runs against a modified tree (tools/) keep the committed evidence untouched
 REPLAYS = VERIF / "replays"
 FINDINGS_FILE = VERIF / "known_findings.txt"
 
